@@ -18,7 +18,7 @@ from fractions import Fraction
 
 import numpy as np
 
-from ..arrays import observe, py_chunks, raised
+from ..arrays import compute_blocks, observe, py_chunks, raised
 from ..core import TLA, MachineryError
 from ..par import pmap
 
@@ -258,7 +258,14 @@ def _plain(cs):
 def observe_out(case, k, y, whole):
     import dask.array as da
     if isinstance(y, da.Array):
-        obs, full = observe(y, whole_too=whole)
+        try:
+            obs, full = observe(y, whole_too=whole)
+        except ValueError:
+            compute_blocks(y)          # dask itself fails: the exception propagates as dask's
+            # every block computes but the blocks do not fit together into the declared grid
+            obs, full = {"lshape": [-1 if isinstance(n, float) else int(n) for n in y.shape],
+                         "chunks": [[-1 if isinstance(c, float) else int(c) for c in ax] for ax in y.chunks],
+                         "cshape": [], "blocksok": False, "raised": ""}, None
         obs["kind"] = kind_of(y.dtype)
         if full is None:
             obs["cells"] = []
